@@ -115,7 +115,7 @@ def gen_tables(name="Tables", srcname="gentables.cpp"):
     coq/gen/<name>.v.  Returns (ok, changed, message)."""
     ensure_dirs()
     with Lock("coq"):
-        exe = os.path.join(BUILD, "gen_" + name)
+        exe = os.path.join(BUILD, "gen_" + name + ("" if REPO == "/repo" else "_" + hashlib.sha256(REPO.encode()).hexdigest()[:8]))
         src = os.path.join(ROOT, "tools", srcname)
         key = tree_hash([INC, src])
         keyf = exe + ".key"
@@ -277,6 +277,9 @@ def build_ocaml(comp):
 def build_cpp(name, src, defines=(), san=True, extra=(), opt=None, std_inc=True):
     """Build a C++ driver against /repo/Include (current working tree)."""
     ensure_dirs()
+    if REPO != "/repo":
+        # scratch trees get their own binaries (several authors / mutations may build at once)
+        name = name + "_" + hashlib.sha256(REPO.encode()).hexdigest()[:8]
     with Lock("cpp_" + name):
         exe = os.path.join(BUILD, name)
         srcp = os.path.join(ROOT, "cpp", src)
